@@ -2,7 +2,7 @@
 C14 — line protocol of the index-side model (`x` ops; core only).
 
   x new <metaDur> <sid:gid:iid:end:deleted:marked:shared;…|-> <iid:igid:start:end:deleted:marked:shared;…|->
-  x tick <dt> | x alter <d> | x load <sid> | x close <sid>
+  x tick <dt> | x alter <d> | x load <sid> | x close <sid> | x offload | x rollback
   x run <okS> <alter1|-> <okI> <alter2|-> <sid=mark.del.prune,…|-> <iid=mark.del.prune,…|->
 every op answers `<op specific> | <state dump>`.
 -/
@@ -61,10 +61,10 @@ def dump (σ : St) : String :=
   s!"cs=[{",".intercalate cs}] ci=[{",".intercalate ci}]"
 
 def showDel : DelRes → String
-  | .ok => "ok" | .notFound => "nf" | .failed => "fail" | .closedErr => "closed"
+  | .ok => "ok" | .notFound => "nf" | .failed => "fail" | .closedErr => "closed" | .migrating => "mig"
 
 def logS (o : Outcome) (q : SQ) (σ : St) : String :=
-  s!" M{q.gid}:{bit o.markOk} D{q.sid}:{showDel (delSRes o q.sid σ.shards)} P{q.sid}:{bit o.pruneOk}"
+  s!" M{q.gid}:{bit o.markOk} D{q.sid}:{showDel (delSRes o q.sid σ.shards σ.bgr)} P{q.sid}:{bit o.pruneOk}"
 
 def logI (o : Outcome) (q : IQ) (σ : St) : String :=
   s!" m{q.igid}:{bit o.markOk} d{q.iid}:{showDel (delIRes o q.iid σ.idxs)} p{q.iid}:{bit o.pruneOk}"
@@ -118,6 +118,8 @@ def stepX (σ : Option St) (ws : List String) : Option St × String :=
       let σ' := step σ (.load sid)
       (some σ', (if σ'.shards.length == σ.shards.length then "noop" else "ok") ++ " | " ++ dump σ')
     | none => (some σ, "bad-op")
+  | some σ, ["offload"] => let σ := step σ .offload; (some σ, "ok | " ++ dump σ)
+  | some σ, ["rollback"] => let σ := step σ .rollback; (some σ, "ok | " ++ dump σ)
   | some σ, ["close", sid] =>
     match sid.toNat? with
     | some sid => let σ := step σ (.close sid); (some σ, "ok | " ++ dump σ)
